@@ -274,6 +274,17 @@ func (p *poller) readWriteLoop() {
 								c.ResetPollerEvent()
 							}
 						} else if onConnected := c.takeOnConnected(); onConnected != nil {
+							// writable does not mean connected: a refused
+							// connection is reported the same way.
+							soErr, errGet := syscall.GetsockoptInt(fd, syscall.SOL_SOCKET, syscall.SO_ERROR)
+							if errGet == nil && soErr != 0 {
+								errGet = syscall.Errno(soErr)
+							}
+							if errGet != nil {
+								_ = c.closeWithError(errGet)
+								onConnected(c, errGet)
+								continue
+							}
 							onConnected(c, nil)
 							c.resetRead()
 						}
